@@ -340,6 +340,7 @@ pub fn run(args: &Args) {
                         // Yielded although we labelled it must-reject, yet content is honest and
                         // re-verifies: byte-level malleability. Recorded, not judged.
                         rep.bump("yielded_equivalent_encoding(not judged)", 1);
+                        rep.bump(&format!("yielded_equivalent_encoding(not judged):{}:{}", t.class, t.label.split(' ').next().unwrap_or("")), 1);
                     }
                 }
                 None => {
